@@ -1198,6 +1198,10 @@ class Engine:
             return Obj(cls.swap_name(v.name, a, b), v.kind)
         if isinstance(v, Ptr):
             return Ptr(cls.swap_name(v.region, a, b), v.off)
+        if isinstance(v, Bit):
+            return Bit(cls.rename_bitexpr(v.e, a, b))
+        if isinstance(v, tuple) and v and v[0] == 'bitref':
+            return ('bitref', cls.swap_name(v[1], a, b), v[2])
         if isinstance(v, tuple) and v and v[0] == 'lvptr' and isinstance(v[1], Ptr):
             return ('lvptr', Ptr(cls.swap_name(v[1].region, a, b), v[1].off))
         if isinstance(v, tuple) and v and v[0] == 'ref' and isinstance(v[1], tuple):
@@ -1207,6 +1211,17 @@ class Engine:
             if lv[0] == 'mem' and isinstance(lv[1], Ptr):
                 return ('ref', ('mem', Ptr(cls.swap_name(lv[1].region, a, b), lv[1].off)))
         return v
+
+    @classmethod
+    def rename_bitexpr(cls, e, a, b):
+        k = e[0]
+        if k == 'r':
+            return ('r', cls.swap_name(e[1], a, b), e[2], e[3])
+        if k == 'not':
+            return ('not', cls.rename_bitexpr(e[1], a, b))
+        if k in ('and', 'or', 'xor'):
+            return (k, cls.rename_bitexpr(e[1], a, b), cls.rename_bitexpr(e[2], a, b))
+        return e
 
     def swap_state(self, st, a, b):
         """exchange the roles of the objects a and b in a state (fields, regions, values)"""
@@ -1218,9 +1233,11 @@ class Engine:
         if st.ret is not None:
             st.ret = self.rename_value(st.ret, a, b)
         if st.ghost:
-            st.ghost = [tuple(self.rename_value(x, a, b) if isinstance(x, Ptr) else x for x in e) for e in st.ghost]
+            st.ghost = [('bitfact', self.rename_bitexpr(e[1], a, b), e[2]) if e[0] == 'bitfact' else
+                        tuple(self.rename_value(x, a, b) if isinstance(x, (Ptr, Bit)) else x for x in e)
+                        for e in st.ghost]
         if st.wlog:
-            st.wlog = [tuple(self.rename_value(x, a, b) if isinstance(x, Ptr) else
+            st.wlog = [tuple(self.rename_value(x, a, b) if isinstance(x, (Ptr, Bit)) else
                              (self.swap_name(x, a, b) if i == 1 and e[0] == 'unknown' else x)
                              for i, x in enumerate(e)) for e in st.wlog]
 
